@@ -786,6 +786,7 @@ func runC20(c *Check) {
 	// ---- R5 read errors checked in storage readers
 	c.ruleReadErrorsChecked("R5", []string{"storage"}, 10)
 	c.rulePreallocateOnlyAsCapacity("R6")
+	c.ruleConstIndexGuarded("R7", "storage")
 }
 
 // maxDecodedAlloc: a constant bound on a decoded size only counts as a bound if it keeps the
